@@ -39,12 +39,14 @@ def run(cmd, cwd=None, timeout=None, env=None, input=None):
     return p.returncode, p.stdout
 
 
-def run_watched(cmd, timeout, input, progress, stall=180):
+def run_watched(cmd, timeout, input, progress, stall=180, extra_env=None):
     """Like run(), with a second watchdog: once the harness has started logging operations to
     `progress`, a log that does not move for `stall` seconds means the current operation hangs."""
     import tempfile
     e = dict(os.environ)
     e.update({"CARGO_NET_OFFLINE": "true", "VERIF_PROGRESS": progress})
+    if extra_env:
+        e.update(extra_env)
     with tempfile.TemporaryFile(mode="w+") as fout:
         p = subprocess.Popen(cmd, env=e, stdin=subprocess.PIPE if input is not None else None, stdout=fout, stderr=subprocess.STDOUT, text=True)
         if input is not None:
@@ -244,14 +246,25 @@ CRASHES = []
 PROGRESS = os.path.join(VERIF, "run", "progress-%d.txt" % os.getpid())
 
 
-def harness(args, timeout=None, input=None):
+def harness_many(arglists, envs=None, timeout=None, workers=16):
+    """Several harness processes at once (each with its own progress log and, optionally, extra environment);
+    returns [(rc, out)] in order.  Hangs and crashes are recorded as by harness()."""
+    from concurrent.futures import ThreadPoolExecutor
+    envs = envs or [None] * len(arglists)
+    with ThreadPoolExecutor(max_workers=workers) as ex:
+        futs = [ex.submit(harness, a, timeout, None, "%s.%d" % (PROGRESS, i), envs[i]) for i, a in enumerate(arglists)]
+        return [f.result() for f in futs]
+
+
+def harness(args, timeout=None, input=None, progress=None, extra_env=None):
     if timeout is None:
         timeout = 4 * 3600 if os.environ.get("VERIF_TIER", "quick") == "thorough" or "--tier" in sys.argv and "thorough" in sys.argv else 1200
+    PROGRESS = progress or globals()["PROGRESS"]
     try:
         os.remove(PROGRESS)
     except OSError:
         pass
-    rc, out = run_watched([HARNESS_BIN] + [str(a) for a in args], timeout, input, PROGRESS)
+    rc, out = run_watched([HARNESS_BIN] + [str(a) for a in args], timeout, input, PROGRESS, extra_env=extra_env)
     if rc == 124:
         script = []
         try:
